@@ -106,6 +106,9 @@ func run(r *core.Run) {
 		r.Bound("space_"+name, sp.Size)
 		if r.Expired() {
 			r.Cap("soft deadline reached before space " + name)
+			pl.mu.Lock()
+			pl.reps, pl.okIdx = map[string]int64{}, map[int64]bool{}
+			pl.mu.Unlock()
 			return sp
 		}
 		pl.runSpace(sp, path)
@@ -163,6 +166,9 @@ func run(r *core.Run) {
 		pl.mu.Unlock()
 		sort.Slice(idx, func(a, b int) bool { return idx[a] < idx[b] })
 		for _, i := range idx {
+			if i < 0 || i >= gv.Size {
+				continue
+			}
 			d := ds[int(i)%len(ds)]
 			if d == 100_000 {
 				continue // see Assume: rendering is quadratic in depth, 10^5 would make the verdict load-dependent
